@@ -36,6 +36,7 @@ type Contract struct {
 	Pure      bool // no heap effect, result is a function of the arguments (and heap if ReadsHeap)
 	ReadsHeap bool
 	Modifies  []string // region patterns; nil = computed by mod analysis; ["nothing"]
+	FreeInvs  []*Clause // free invariant: a system invariant assumed at entry and after every havoc inside the function (listed as an assumption)
 	FrameFresh []string // regions the function writes only on objects it allocates itself (assumed refinement of the computed frame)
 	Opts      map[string]string
 	PanicsWhen []*Clause
@@ -295,6 +296,13 @@ func (cs *ContractSet) LoadFile(path, pkg string, trusted bool) error {
 				cs.Pragmas = append(cs.Pragmas, "assumed frame of "+cur.Func+": writes "+r2+" only on objects it allocates")
 			case "free":
 				// free requires <expr>: a system invariant assumed at this entry point (listed as an assumption)
+				if strings.HasPrefix(rest, "invariant") {
+					c := mk(strings.TrimSpace(strings.TrimPrefix(rest, "invariant")), p.line, true)
+					c.Free = true
+					cur.FreeInvs = append(cur.FreeInvs, c)
+					cs.Pragmas = append(cs.Pragmas, "free invariant of "+cur.Func+" (assumed at entry and after every call and loop havoc): "+c.Src)
+					break
+				}
 				if strings.HasPrefix(rest, "ensures") {
 					c := mk(strings.TrimSpace(strings.TrimPrefix(rest, "ensures")), p.line, true)
 					c.Free = true
